@@ -21,7 +21,7 @@ RESERVED_ROOTS = {'index', 'moduleIndex', 'classIndex', 'nameIndex', 'undoccedSu
 P = {'heading': 1, 'sidebar_title': 2, 'sidebar_item': 3, 'main': 4, 'pkginit': 5, 'base': 6, 'base_name': 7,
      'childlist': 8, 'known_subclasses': 9, 'class_signature': 10, 'overrides': 11, 'overridden_in': 12,
      'hierarchy': 13, 'module_index': 20, 'class_index': 21, 'name_index': 22, 'undocced': 23, 'index_roots': 24,
-     'alldocs': 25, 'corpus': 26, 'inventory': 27}
+     'alldocs': 25, 'corpus': 26, 'inventory': 27, 'xref': 30, 'xref_summary': 31}
 PNAME = {v: k for k, v in P.items()}
 
 
@@ -370,6 +370,10 @@ def corpus() -> List[Dict[str, Any]]:
         {'id': 'corpus-main-module',
          'files': {'pkg/__init__.py': '"""p"""\n', 'pkg/__main__.py': '"""main"""\ndef run(): "r"\n'},
          'roots': ['pkg'], 'args': ['--privacy=PUBLIC:pkg.__main__']},
+        {'id': 'corpus-main-module-hidden-rule',
+         'files': {'pkg/__init__.py': '"""p L{pkg.__main__.run}"""\n', 'pkg/__main__.py': '"""main"""\ndef run(): "r"\n',
+                   'pkg/other.py': '"""o"""\nfrom pkg.__main__ import run\n'},
+         'roots': ['pkg'], 'args': ['--privacy=HIDDEN:pkg.__main__']},
         {'id': 'corpus-inherited-docstring-xref',
          'files': {'m.py': '"""m"""\nclass Base:\n    """b"""\n    def target(self):\n        """t"""\n'
                            '    def meth(self):\n        """See L{target} and L{Base.target}."""\n'
@@ -380,6 +384,11 @@ def corpus() -> List[Dict[str, Any]]:
                    'foo/foo.py': '"""inner module L{foo.top}"""\ndef helper():\n    """h"""\n'
                                  'class foo:\n    """inner class"""\n    def m(self):\n        """m"""\n'},
          'roots': ['foo'], 'args': []},
+        {'id': 'corpus-compact-module-index',     # > 50 submodules without sub-submodules: the compact module index
+         'files': dict([('big/__init__.py', '"""big"""\n')] +
+                       [('big/m%02d.py' % i, '"""module %d L{big.m00.f}"""\ndef f():\n    """f"""\n' % i) for i in range(51)] +
+                       [('big/_p.py', '"""private one"""\n'), ('big/hid.py', '"""hidden one"""\nclass H:\n    """h"""\n')]),
+         'roots': ['big'], 'args': ['--privacy=HIDDEN:big.hid', '--privacy=PRIVATE:big.m07']},
         {'id': 'corpus-non-ascii',
          'files': {'m.py': '"""m doc L{Cl\u00e9}"""\nclass Cl\u00e9:\n    """c"""\n    def m\u00e9(self): "x"\ndef f\u00e9(): "y"\n'},
          'roots': ['m.py'], 'args': []},
@@ -392,9 +401,10 @@ def to_model(reg: Dict[str, Any]) -> str:
     objs = []
     for o in reg['objs']:
         objs.append([o['name'], [] if o['parent'] is None else [o['parent']], o['contents'], KIND.get(o['cls'], 4),
-                     PRIV[o['priv']], 1 if o['doc'] else 0, o.get('mro', []), o.get('subclasses', []),
+                     PRIV[o.get('rawpriv', o['priv'])], 1 if o['doc'] else 0, o.get('mro', []), o.get('subclasses', []),
                      [([] if b[1] is None else [b[1]]) for b in o.get('bases', [])],
-                     [] if o.get('module') is None else [o['module']]])
+                     [] if o.get('module') is None else [o['module']],
+                     [] if o.get('docsource') is None else [o['docsource']], o.get('xrefs', []), o.get('sumxrefs', [])])
     return enc([[objs, reg['roots'], [v for _, v in reg['all']], reg['root_names']],
                 reg['sidebar_depth'], 1 if reg['nosidebar'] else 0])
 
@@ -405,6 +415,10 @@ def model_view(out: Any) -> Dict[str, Any]:
     entries = set()
     for e in out[2]:
         page, prod, oid, href, priv = txt(e[0]), e[1], e[2], (txt(e[3][0]) if e[3] else None), bool(e[4])
+        if prod == 14:
+            prod = P['sidebar_item']        # inherited members are listed in the same sidebar lists
+        if prod in (P['xref'], P['xref_summary']) and href is None:
+            continue        # a cross reference to a hidden object renders as plain text
         if prod == P['class_signature'] and href is None:
             continue        # a base rendered as plain text is not distinguishable from the rest of the signature
         entries.add((page, prod, oid if prod == P['corpus'] else -1, href, priv))
@@ -431,6 +445,12 @@ def crawl_view(reg: Dict[str, Any], cr: Dict[str, Any]) -> Dict[str, Any]:
     for page, info in cr['pages'].items():
         if page in SUMMARY_PAGES and 'tables' not in info:
             continue
+        for ref in info.get('refs', []):
+            if 'internal-link' in ref[3].split():
+                if ref[2] in ('docstring', 'member_doc'):
+                    add(page, 'xref', ref[1])
+                elif ref[2] == 'table_summary':
+                    add(page, 'xref_summary', ref[1])
         for m in info.get('members', []):
             for a in m['anchors']:
                 anchors.add((page, a))
@@ -471,6 +491,8 @@ def crawl_view(reg: Dict[str, Any], cr: Dict[str, Any]) -> Dict[str, Any]:
     if mi and 'tree' in mi:
         for e in mi['tree']:
             add('moduleIndex.html', 'module_index', e['name'][1], priv(e['class']))
+            for h in e.get('summary_links', []):
+                add('moduleIndex.html', 'xref_summary', h)
     ci = cr['pages'].get('classIndex.html')
     if ci and 'tree' in ci:
         for e in ci['tree']:
@@ -478,6 +500,8 @@ def crawl_view(reg: Dict[str, Any], cr: Dict[str, Any]) -> Dict[str, Any]:
                 anchors.add(('classIndex.html', e['anchor']))
             if e['anchor'] is not None or is_internal(e['name'][1]):
                 add('classIndex.html', 'class_index', e['name'][1])
+                for h in e.get('summary_links', []):
+                    add('classIndex.html', 'xref_summary', h)
     ni = cr['pages'].get('nameIndex.html')
     if ni and 'flat' in ni:
         for e in ni['flat']:
@@ -496,7 +520,25 @@ def crawl_view(reg: Dict[str, Any], cr: Dict[str, Any]) -> Dict[str, Any]:
         add('', 'corpus', None, False, fullidx.get(q, -2))
     for name, typ, url in cr['inventory'] or []:
         add('', 'inventory', url)
-    return {'files': files, 'anchors': sorted(anchors), 'entries': entries}
+    # types taken from annotations are resolved while the docstring is formatted but rendered (in the field table) only
+    # for documented parameters: (page, href) pairs that MAY appear among the docstring links
+    ann_allowed = set()
+    for o in reg['objs']:
+        pg = o['url'].split('#')[0]
+        for t in o.get('annxrefs', []):
+            u = reg['objs'][t]['url']
+            ann_allowed.add((pg, u))
+            if u.startswith(pg + '#'):
+                ann_allowed.add((pg, u[len(pg):]))
+    # a type given by an @type field is resolved while the docstring is formatted (the stan is cached) but rendered in
+    # the attribute's HEADER: docstring links that may legitimately show up in the member header instead
+    header_links = set()
+    for page, info in cr['pages'].items():
+        for ref in info.get('refs', []):
+            if ref[2] == 'member_header' and 'internal-link' in ref[3].split():
+                header_links.add((page, ref[1]))
+    return {'files': files, 'anchors': sorted(anchors), 'entries': entries, 'ann_allowed': ann_allowed,
+            'header_links': header_links}
 
 
 def diff_views(mv: Dict[str, Any], cv: Dict[str, Any]) -> Optional[Dict[str, Any]]:
@@ -513,8 +555,11 @@ def diff_views(mv: Dict[str, Any], cv: Dict[str, Any]) -> Optional[Dict[str, Any
     sig = P['class_signature']
     mv = dict(mv)
     cv = dict(cv)
-    mv['entries'] = {e for e in mv['entries'] if e[1] != sig}
-    cv['entries'] = {e for e in cv['entries'] if e[1] != sig}
+    ann = cv.get('ann_allowed', set())
+    hdr = cv.get('header_links', set())
+    mv['entries'] = {e for e in mv['entries'] if e[1] != sig and not (e[1] == P['xref'] and (e[0], e[3]) in ann)
+                     and not (e[1] == P['xref'] and e not in cv['entries'] and (e[0], e[3]) in hdr)}
+    cv['entries'] = {e for e in cv['entries'] if e[1] != sig and not (e[1] == P['xref'] and (e[0], e[3]) in ann)}
     if mv['entries'] != cv['entries']:
         def show(s: Set[Any]) -> List[Any]:
             return sorted([[e[0], PNAME.get(e[1], e[1]), e[2], e[3], e[4]] for e in s], key=str)[:12]
